@@ -28,8 +28,9 @@ Values(f) ==
       [] f = "children" -> {"none", "plain", "modifiers_and_original_name"}
       [] f = "frames" -> {0, 1, 3}
       [] f = "class_name" -> {"none", "given"}
-      [] f = "watches" -> IF Rich THEN {"none", "good", "error", "good_and_error", "log_and_capture"}
-                          ELSE {"none", "good_and_error"}
+      [] f = "watches" -> IF Rich THEN {"none", "good", "error", "good_and_error", "log_and_capture", "error_empty"}
+                          ELSE {"none", "good_and_error", "error_empty"}   \* error_empty: a watch that failed with an
+                                                                           \* exception that has no message text
       [] f = "attrs" -> IF Rich THEN {"none", "str", "bool_int_float", "sequence", "all"} ELSE {"none", "all"}
       [] f = "log_msg" -> {"none", "text"}
       [] f = "auth" -> {"none", "basic", "custom", "failing"}
